@@ -4,7 +4,8 @@ import Pymc.Model.Server
 # The public operations of `Client` (base.py 446–1070) on top of the exchange paths
 
 `call` = argument checks and command building (Wire) → exchange (Exchange) → post-processing, for the
-default serializer (values are bytes; `str`/`int` values are rendered as text).  `onServer` composes a
+default serializer (values are bytes; `str`/`int` values are rendered as text).  Besides the data operations it
+covers the administrative ones: `stats` (the raw dict, before the type conversion), `cache_memlimit`, `shutdown`.  `onServer` composes a
 call with the Lean memcached (`Server.feed`) over a perfect connection — the object of C04/C05.
 -/
 namespace Client
@@ -25,6 +26,12 @@ inductive Call
   | version
   | quit
   | raw (cmd tok : Bytes)
+  /-- `stats(*args)`: the arguments are `str`/`bytes` objects, treated by `_fetch_cmd` like keys -/
+  | stats (args : List Key.K)
+  /-- `cache_memlimit(memlimit)` -/
+  | cacheMemlimit (m : IntArg)
+  /-- `shutdown(graceful=False)` -/
+  | shutdown (graceful : Bool)
 deriving Repr
 
 inductive Res
@@ -38,6 +45,13 @@ inductive Res
   | dict (kvs : List (Key.K × Bytes))
   | casDict (kvs : List (Key.K × Bytes × Bytes))
   | keys (ks : List Key.K)
+  /-- the dict `stats()` gets from `_fetch_cmd`, *before* the per-key type conversion (`STAT_TYPES.get(key, int)`
+  applied to each value, failures ignored): the conversion (floats, booleans, octal) is outside the model, the
+  harness applies it to this raw form before comparing.  Insertion-ordered, a later entry with the same key
+  overwrites the earlier value in place.  The key of a `STAT name value` / `ITEM name …` line is the `bytes`
+  object `name` (`.bytes name`); a `VALUE` block — which `_fetch_cmd` accepts in a `stats` reply too — is
+  entered under the caller's own argument object (`remapped_keys[key]`), which may be a `str`. -/
+  | stats (kvs : List (Key.K × Bytes))
 deriving DecidableEq, Repr
 
 def liftErr {α} : Except Wire.Err α → Except Exc α
@@ -75,6 +89,22 @@ def fetchValues (cfg : Cfg) (ignoreExc : Bool) (verb : FVerb) (ks : List Key.K) 
   | _, _ => early .illegalInput sockOpen sc
 
 def boolOr (o : Option Bool) (d : Bool) : Bool := o.getD d
+
+/-- the `result` dict of `_fetch_cmd(b"stats", …)` from the reply entries in order (`result[key] = value`) -/
+def statsDict (remap : List (Bytes × Key.K)) (entries : List FetchEntry) : List (Key.K × Bytes) :=
+  entries.foldl (fun d e => match e with
+    | .item it => (match remapLookup remap it.key with
+        | some k => dictSet d k it.data
+        | none => d)
+    | .stat name value => dictSet d (.bytes name) value) []
+
+/-- `try: … except MemcacheUnexpectedCloseError: pass` around `_misc_cmd` in `shutdown()`: that one exception
+class becomes a normal return of `None`; every other outcome, and everything else about the call (the socket
+was closed by `_misc_cmd` before it re-raised), is untouched -/
+def swallowClose (o : CallOut Res) : CallOut Res :=
+  ⟨match o.res with
+    | .error .unexpectedClose => .ok .none
+    | r => r, o.sockOpen, o.connected, o.sent, o.unread⟩
 
 def call (cfg : Cfg) (ignoreExc : Bool) (sockOpen : Bool) (c : Call) (sc : Script) : CallOut Res :=
   match c with
@@ -173,6 +203,26 @@ def call (cfg : Cfg) (ignoreExc : Bool) (sockOpen : Bool) (c : Call) (sc : Scrip
   | .raw cmd tok =>
     mapOut (exchangeMisc [cmd ++ CRLF] false (if tok = [] then Option.none else some tok) sockOpen sc) fun ls =>
       match ls.head? with | some l => .ok (.bytes l) | Option.none => .error .indexError
+  | .stats args =>
+    -- `_fetch_cmd(b"stats", args, False)`: `check_key(k, key_prefix=b"")` for every argument, outside the `try`
+    match args.mapM (checkArg cfg) with
+    | .error _ => early .illegalInput sockOpen sc
+    | .ok wire =>
+      mapOut (exchangeFetch .stats (adminFetchCmd (ofString "stats") wire) wire ignoreExc sockOpen sc) fun entries =>
+        .ok (.stats (statsDict (wire.zip args) entries))
+  | .cacheMemlimit m =>
+    -- `_check_integer`, then `_fetch_cmd(b"cache_memlimit", [memlimit], False)`; the result dict is dropped and
+    -- `True` returned — also when `ignore_exc` made `_fetch_cmd` return `{}` for a failed exchange
+    match checkInteger m with
+    | .error _ => early .illegalInput sockOpen sc
+    | .ok i =>
+      match checkArg cfg (.bytes (intDec i)) with
+      | .error _ => early .illegalInput sockOpen sc     -- a decimal of more than 250 characters
+      | .ok w =>
+        mapOut (exchangeFetch (.values false) (adminFetchCmd (ofString "cache_memlimit") [w]) [w] ignoreExc sockOpen sc)
+          fun _ => .ok (.bool true)
+  | .shutdown graceful =>
+    swallowClose (mapOut (exchangeMisc [shutdownCmd graceful] false Option.none sockOpen sc) fun _ => .ok .none)
 
 /-! ## client ∘ wire ∘ server over a perfect connection -/
 /-- the client is connected, the server answers everything it is sent, in one piece -/
